@@ -324,8 +324,28 @@ func crashOne(t *testing.T, tape *verifsim.Tape, tier string, keepLog bool, k in
 		}
 		if noPrune {
 			// nothing removes debris or replaced layers in this configuration: only what
-			// names resolve to can be compared
+			// names resolve to can be compared ...
+			full := final
 			final = final.onlyReferenced()
+			// ... except download bookkeeping: an uninterrupted run that succeeds leaves no
+			// -partial data file and no -partial-N record behind, and records that survive a
+			// successful repeat are trusted by every later pull of the same blob
+			if pulled := op.kind == "pull" || op.kind == "create-from"; pulled && redo.ok() {
+				var left []string
+				for f := range full.blobs {
+					if strings.Contains(f, "-partial") {
+						base := f[:strings.Index(f, "-partial")]
+						if _, done := full.blobs[base]; done {
+							left = append(left, f)
+						}
+					}
+				}
+				sort.Strings(left)
+				if len(left) > 0 {
+					w.violate(prop, "redo", sig("redo-diverges:download-records-left-next-to-complete-blob"), "after the process died during %q (%s), restart (OLLAMA_NOPRUNE) and repeating the operation, the blob store holds download records of blobs that are complete: %v (an uninterrupted run leaves none; a later pull of such a blob resumes from them)", op, where, left)
+					return
+				}
+			}
 		}
 		if selfFrom {
 			res.Info["comparison_skipped_self_from"]++
